@@ -408,8 +408,30 @@ def r3(ctx, R):
                 if isinstance(c.func, ast.Attribute) and c.func.attr == "pop" and access_path(c.func.value) and access_path(c.func.value).endswith("obj_tree"):
                     F = ctx.facts(g, interproc=False)
                     facts = F.at(c) or set()
-                    if any(fa[0] in ("truthy", "cond") and "did_close" in fa[1] for fa in facts):
-                        pr = True
+                    if t == q:
+                        pr = True  # the close handler prunes by itself
+                        continue
+                    # in a callee: under a flag parameter that the close handler passes as a true constant
+                    hq = ctx.m.funcs[q]
+                    flags = set()
+                    for hc in calls_in(hq.node):
+                        if t not in ctx.r.resolve_call(hq, hc)[1]:
+                            continue
+                        ps = g.params[1:] if g.cls else g.params
+                        for i_, a_ in enumerate(hc.args):
+                            if isinstance(a_, ast.Constant) and a_.value is True and i_ < len(ps):
+                                flags.add(ps[i_])
+                        for kw in hc.keywords:
+                            if isinstance(kw.value, ast.Constant) and kw.value.value is True:
+                                flags.add(kw.arg)
+                    for fa in facts:
+                        if fa[0] in ("truthy", "cond") and (len(fa) < 3 or fa[2] is not False):
+                            try:
+                                names = {n.id for n in ast.walk(ast.parse(fa[1], mode="eval")) if isinstance(n, ast.Name)}
+                            except SyntaxError:
+                                names = set()
+                            if names & flags:
+                                pr = True
         g = ctx.m.funcs[q]
         if pr:
             R.ok("C10.R3", g.short, "closing a deleted file removes its entries", loc(g, g.node))
